@@ -1,6 +1,7 @@
 import Model.Resp
 import Model.Mw
 import Spec.Resp
+import Spec.RespLayer
 import Drivers.Common
 /-! `vm_c13`: line protocol over `Model.Resp` / `Spec.Resp` / `Model.Mw`.
 
@@ -10,6 +11,9 @@ import Drivers.Common
   conn <ops>            same, over a real connection (body only if the committed status allows one)
   spec <ops>            same, evaluated by the reference spec
   mw <prio>:<id>:<calls>,…    → space separated trace
+  layers <L>^<L>^…      layered request, outermost layer first; L = <commits 0|1>~<calls 0|1>~<ops before $next>~<ops after>
+  lconn <L>^…           same, over a real connection
+  lspec <L>^… / lspecconn <L>^…   the layered reference (Spec.RespLayer)
 -/
 open Model.Resp
 
@@ -46,6 +50,17 @@ def parseEntry (s : String) : Option Model.Mw.Entry :=
 def showEv : Model.Mw.Ev → String
   | .pre i => s!"pre{i}" | .post i => s!"post{i}" | .final => "final"
 
+def parseLayer (s : String) : Option Model.RespLayer.Layer :=
+  match s.splitOn "~" with
+  | [cm, cl, pre, post] => do
+      let pre ← parseOps pre
+      let post ← parseOps post
+      some { commits := cm == "1", calls := cl == "1", pre := pre, post := post }
+  | _ => none
+
+def parseLayers (s : String) : Option (List Model.RespLayer.Layer) :=
+  if s.isEmpty then some [] else (s.splitOn "^").mapM parseLayer
+
 def handle (line : String) : String :=
   match line.splitOn "\t" with
   | ["resp", ops] =>
@@ -59,6 +74,22 @@ def handle (line : String) : String :=
   | ["spec", ops] =>
       match parseOps ops with
       | some ops => showClient (Spec.Resp.run ops)
+      | none => "bad-op"
+  | ["layers", ls] =>
+      match parseLayers ls with
+      | some ls => showClient (Model.RespLayer.serveOn false ls).client
+      | none => "bad-op"
+  | ["lconn", ls] =>
+      match parseLayers ls with
+      | some ls => showClient (Model.RespLayer.serveOn true ls).client
+      | none => "bad-op"
+  | ["lspec", ls] =>
+      match parseLayers ls with
+      | some ls => showClient (Spec.RespLayer.runOn false ls)
+      | none => "bad-op"
+  | ["lspecconn", ls] =>
+      match parseLayers ls with
+      | some ls => showClient (Spec.RespLayer.runOn true ls)
       | none => "bad-op"
   | ["mw", es] =>
       match (if es.isEmpty then some [] else (es.splitOn ",").mapM parseEntry) with
